@@ -27,8 +27,9 @@ CFG = {
                      "the scripted socket (harness MockConn): reads return the scripted chunks, an idle event is a WouldBlock when a timeout is armed",
                      "DateTime::now is observed only as 'well-formed and recent'"],
     "assumptions": ["handlers set no Content-Length/Connection/Date/Server themselves (targets of the quantifier)",
-                    "threaded runtime only: the tokio twin of client_handler is patched identically but not yet exercised",
+                    "tokio runtime: a share of the connections (no timeout/idle/upgrade cases) is repeated against the real tokio App::run on a loopback port through the second harness binary hvt; only the bytes a client sees are compared there (no dispatch log, no scripted segmentation: the kernel may coalesce writes, which the segmentation-independence theorem makes harmless)",
                     "cross-connection isolation of a handler panic is C08's theorem (panic_isolated), not shown here"],
+    "extra_harness": ["harness-tokio"],
     "design_ref": "6.1",
     "level_text": "serve_segmentation_independent: for EVERY client byte stream and any two segmentations the model of the "
                   "connection loop writes the same responses, dispatches the same requests and ends the same way "
